@@ -167,13 +167,6 @@ theorem triggered_pos (F : Fn α) (outs : List (OutVar α)) (impl : Option Strin
     | none => simp [hm] at h
     | some q => simp [hm] at h; exact h.2
 
-/-- a conclusion on a disabled output variable adds nothing (the loop skips it and keeps the degree) -/
-theorem disabled_variable_skipped (F : Fn α) (outs : List (OutVar α)) (impl : Option String) (c : Concl)
-    (cs : List Concl) (d : X α) (fz : Fuzzy α) (ov : OutVar α) (i : Nat)
-    (hf : outs.zipIdx.find? (fun p => p.1.name == c.var) = some (ov, i)) (hd : ov.enabled = false) :
-    Op.Engine.modify F outs impl (c :: cs) d fz = Op.Engine.modify F outs impl cs d fz := by
-  simp [Op.Engine.modify, hf, hd]
-
 /-! ### the engine model is composed of the component models of C09 / C10 / C12
 
 These statements hold by unfolding: the executable engine model calls the very functions the component properties
@@ -199,6 +192,35 @@ theorem integral_is_component (xs ys : List (X α)) :
 /-- an output without activations: the aggregated membership is 0 at every sample point -/
 theorem no_activation_membership (F : Fn α) (inputs : List (X α)) (agg : Option String) (x : X α) :
     aggMembership F inputs agg [] x = some (.fin 0) := rfl
+
+/-- the conclusions of a triggered rule: the C07 loop (`Op.Consequent.modifyPinned`, the code as written) produces the
+    activations, which are appended to the fuzzy outputs of their variables -/
+theorem modify_is_component (F : Fn α) (outs : List (OutVar α)) (impl : Option String) (cs : List Concl) (d : X α)
+    (fz : Fuzzy α) :
+    Op.Engine.modify F outs impl cs d fz =
+      (toConcls F outs cs).bind (fun concls =>
+        (Op.Consequent.modifyPinned X.nanToNum01 impl d concls).foldlM (appendAct outs) fz) := by
+  simp only [Op.Engine.modify]
+  cases toConcls F outs cs <;> rfl
+
+/-- rule selection: whenever no antecedent of the block reads an output variable – and always for Highest, Lowest and
+    Proportional – the block is activated through the C08 model `Op.Activation.activate` -/
+theorem activate_is_component (F : Fn α) (ins : List (InVar α)) (outs : List (OutVar α)) (b : Block α) (fz : Fuzzy α)
+    (h : feedbackFree outs b = true ∨ (∃ n, b.activation = .highest n) ∨ (∃ n, b.activation = .lowest n) ∨
+      b.activation = .proportional) :
+    activateBlock F ins outs b fz = activateViaComponent F ins outs b fz := by
+  unfold activateBlock
+  cases hf : feedbackFree outs b
+  · rcases h with h | ⟨n, h⟩ | ⟨n, h⟩ | h
+    · simp [hf] at h
+    all_goals simp [h]
+  · simp
+
+/-- antecedents: the C06 evaluator `Op.degree` on the engine's environment -/
+theorem degree_is_component (F : Fn α) (e : Env α) (conj disj : Option String) (a : Ante)
+    (h : resolves F e conj disj a = true) :
+    degree F e conj disj a = (Op.degree (degCtx F e conj disj) (toANode a)).toOption := by
+  simp [degree, h]
 
 /-- the value an output variable takes after a step is the C12 cascade applied to the raw defuzzified value -/
 theorem value_is_cascade (ov : OutVar α) (raw : X α) (st : Op.OutState α) :
